@@ -29,15 +29,16 @@ var (
 	c12pSrcSpec  = sim.RegStat("probe:c12-source-specific-membership-filtered")
 	c12pLeft     = sim.RegStat("probe:c12-datagram-after-leave-withheld")
 	c12pRebuf    = sim.RegStat("probe:c12-read-buffer-redesignated-while-pending")
+	c12pNested   = sim.RegStat("probe:c12-read-started-from-inside-a-read-completion")
 	c12pWrite    = sim.RegStat("probe:c12-write-observed-in-kernel")
 	c12pOpFail   = sim.RegStat("probe:c12-membership-call-failed-by-injection")
 	c12pBig      = sim.RegStat("probe:c12-datagram-65507")
 )
 
 type c12Join struct {
-	group  [4]byte
-	ifix   int
-	source [4]byte // zero: any source
+	group   [4]byte
+	ifix    int
+	source  [4]byte // zero: any source
 	blocked [][4]byte
 }
 
@@ -66,15 +67,17 @@ type c12Sock struct {
 	buf     []byte
 	buf2    []byte
 	useBuf2 bool
+	readGen int
+	nested  int
 	got     []c12Recv
 	expect  []int // datagram ids the model says this socket receives, in send order (dups twice)
 	closed  bool
 }
 
 type c12Dgram struct {
-	id    int
-	data  []byte
-	srcIP [4]byte
+	id      int
+	data    []byte
+	srcIP   [4]byte
 	srcPort int
 }
 
@@ -282,14 +285,21 @@ func (d *c12) startRead(s *c12Sock) {
 	}
 	w := d.w
 	s.reading = true
+	s.readGen++
+	gen := s.readGen
 	size := w.Pick(2048, 1, 3, 64, 70000)
-	s.buf = make([]byte, size)
+	// every read has its own buffer and its own callback: a completion must use the ones of the read it completes
+	buf := make([]byte, size)
+	s.buf = buf
 	s.buf2 = nil
 	s.useBuf2 = false
-	for i := range s.buf {
-		s.buf[i] = 0xEE
+	for i := range buf {
+		buf[i] = 0xEE
 	}
 	record := func(err error, n int, ip [4]byte, port int) {
+		if gen != s.readGen {
+			d.c.Failf("completion-went-to-stale-callback", "socket %d: a datagram completed the callback of read #%d, which had already completed; the pending read is #%d with its own buffer and callback", s.ix, gen, s.readGen)
+		}
 		s.reading = false
 		if err != nil {
 			if err == sonicerrors.ErrWouldBlock {
@@ -297,7 +307,7 @@ func (d *c12) startRead(s *c12Sock) {
 			}
 			d.c.Failf("read-failed", "socket %d: datagram read failed: %v", s.ix, err)
 		}
-		b := s.buf
+		b := buf
 		if s.useBuf2 {
 			b = s.buf2
 		}
@@ -306,19 +316,27 @@ func (d *c12) startRead(s *c12Sock) {
 		}
 		s.got = append(s.got, c12Recv{n: n, data: append([]byte(nil), b[:n]...), ip: ip, port: port, intoBuf2: s.useBuf2})
 		if s.useBuf2 {
-			for _, x := range s.buf {
+			for _, x := range buf {
 				if x != 0xEE {
 					d.c.Failf("read-landed-in-stale-buffer", "socket %d: SetAsyncReadBuffer designated a new buffer for the pending read, yet the datagram was written into the old one", s.ix)
 				}
 			}
 		}
+		// the usual receive loop: the handler starts the next read itself, with another buffer; that read
+		// may complete at once (another datagram is queued) or stay pending
+		if w.Chance(1, 2) && s.nested < 64 {
+			w.Stat(c12pNested)
+			s.nested++
+			d.startRead(s)
+			s.nested--
+		}
 	}
 	if s.isPeer {
-		s.peer.AsyncRead(s.buf, func(err error, n int, from netip.AddrPort) {
+		s.peer.AsyncRead(buf, func(err error, n int, from netip.AddrPort) {
 			record(err, n, from.Addr().As4(), int(from.Port()))
 		})
 	} else {
-		s.pc.AsyncReadFrom(s.buf, func(err error, n int, from net.Addr) {
+		s.pc.AsyncReadFrom(buf, func(err error, n int, from net.Addr) {
 			var ip [4]byte
 			port := 0
 			switch a := from.(type) {
